@@ -50,9 +50,10 @@ ReadSeq(ref) ==
       [] ref.kind = "relm"     -> << Txn("GroupIndex"), IntC(ref.i), Op("-"), Gtxns(ref.f) >>
       [] ref.kind = "relms"    -> << IntC(ref.i), Txn("GroupIndex"), Op("-"), Gtxns(ref.f) >>
       \* the index travels through a swap: Gtxn[ref.i] is read, the other swapped value (another constant /
-      \* GroupIndex + 1) is a decoy that stays below and is popped afterwards
-      [] ref.kind = "swabs"    -> << IntC(ref.i), IntC((ref.i + 1) % 3), Op("swap"), Gtxns(ref.f), Op("swap"), Op("pop") >>
-      [] ref.kind = "swrel"    -> << IntC(ref.i), Txn("GroupIndex"), IntC(1), Op("+"), Op("swap"), Gtxns(ref.f), Op("swap"), Op("pop") >>
+      \* GroupIndex + 1) is a decoy that stays on the stack BELOW the value read (so the field is always the first
+      \* operand of its comparison; programs end with `int 1; return`, which ignores what lies below)
+      [] ref.kind = "swabs"    -> << IntC(ref.i), IntC((ref.i + 1) % 3), Op("swap"), Gtxns(ref.f) >>
+      [] ref.kind = "swrel"    -> << IntC(ref.i), Txn("GroupIndex"), IntC(1), Op("+"), Op("swap"), Gtxns(ref.f) >>
 
 R(kind, f, i) == [kind |-> kind, f |-> f, i |-> i]
 
@@ -209,6 +210,8 @@ F1SentinelDigits ==
     \cup { << 0, 3, 0, 1, 0, c, j, 0, 3 >> : c \in {0}, j \in 0..(NSkel - 1) }
     \cup { << f, 0, s, 0, n, 0, 0, 0, 3 >> : f \in 5..7, s \in 0..1, n \in 0..2 }
     \cup { << 7, 4, 0, 0, n, c, 0, 0, 3 >> : n \in 0..2, c \in {0, 2, 3} }
+    \* every field checked after a call whose (nested) callee may approve by itself: skeletons 16, 27, 28, 29
+    \cup { << f, 0, 0, 0, 0, 0, j, 0, 3 >> : f \in 2..9, j \in {15, 26, 27, 28} }
 
 -----------------------------------------------------------------------------
 (* Family f2: two checks, joined in one block by && / || or placed in two holes *)
@@ -300,7 +303,7 @@ F3Case(fam, k, d) ==
         kind == F3Kinds[1 + d[2]]
         i    == F3Idx(kind, d[3])
         ref  == R(kind, f, i)
-        cmp  == MkCmp(ref, d[4], IF d[5] = 0 THEN "L" ELSE "R", 1 + d[6], 0)
+        cmp  == MkCmp(ref, d[4], IF d[5] = 0 \/ kind \in {"swabs", "swrel"} THEN "L" ELSE "R", 1 + d[6], 0)
         g    == F3Guards[1 + d[7]]
         cons == Consumers[1 + d[8]]
         j    == 1 + d[9]
